@@ -195,7 +195,9 @@ pub(crate) fn mk_frame(chunks: &[Vec<u8>], duration: u16, old_count: u16, new_co
 // identity model of `unzip` therefore wrap their payload into a real (stored-block) zlib stream when they are
 // not running under the stub, so that a replayed counterexample exercises the real inflater on the same bytes.
 pub(crate) fn stubs_probe() -> bool {
-    false
+    // native replays are `cargo test` builds (cfg(test)); verification builds are not. The stub attribute on the
+    // harnesses (-> stubs_probe_stubbed) says the same thing and is kept for clarity.
+    !cfg!(test)
 }
 pub(crate) fn stubs_probe_stubbed() -> bool {
     true
@@ -227,7 +229,7 @@ pub(crate) fn zlib_stored(data: &[u8]) -> Vec<u8> {
 /// payload for a "compressed" field: the bytes themselves under the identity stub, a real zlib stream natively.
 /// Harnesses using it must carry #[kani::stub(crate::vklib::stubs_probe, crate::vklib::stubs_probe_stubbed)].
 pub(crate) fn compressed_payload(data: &[u8]) -> Vec<u8> {
-    if stubs_probe() {
+    if !cfg!(test) {
         data.to_vec()
     } else {
         zlib_stored(data)
